@@ -24,7 +24,7 @@ RULE = ('Every case evaluates ALL operations of the statement on freshly generat
         'translate by their action on points; orthogonal_projection by the images of the 8 box corners, with '
         'dyadic extents). Swizzling is ENUMERATED exhaustively per case: every string of length 2-4 over the '
         'component letters (28 / 117 / 336) plus invalid strings. Float regime (magnitudes in {0} u [1e-3, '
-        '1e3], tolerance 1e-9 relative + 1e-9 absolute): abs/mag/distance, normalize, from_magnitude, '
+        '1e3], tolerance 1e-9 relative + 1e-9 absolute): abs/mag/distance (also of points 1e-6..1 apart but far from the origin, both ways round, and of a point to an equal copy; expected value computed exactly over the rationals and rounded once), normalize, from_magnitude, '
         'from_heading, from_polar, rotate, limit with |v|/m concentrated in [0.3, 3] and m on both sides of 1. '
         ''
         'In ~8% of the cases 64-520 distinct angles are swept twice through from_polar / from_heading. '
@@ -365,6 +365,22 @@ def floats(f, sel, facts, amp=0):
         dist = math.sqrt(sum((x - y) ** 2 for x, y in zip(a, b)))
         if not close(va.distance(vb), dist):
             viol('distance_is_the_euclidean_distance', dim=dim, a=a, b=b, got=va.distance(vb), expected=dist)
+        # points close to each other but far from the origin (an object homing in on its target): the components are of
+        # moderate magnitude, their differences are small; the expected value is computed exactly from the float
+        # entries (rationals) and rounded once
+        step = 10.0 ** -(sel % 7)
+        near = [moderate(x + f[8 + i] * step / 1000.0) if x else x for i, x in enumerate(a)]
+        exact_sq = sum((Fraction(y) - Fraction(x)) ** 2 for x, y in zip(a, near))
+        want = math.sqrt(exact_sq)
+        for p_, q_, w_ in ((va, V(*near), want), (V(*near), va, want), (va, V(*a), 0.0)):
+            try:
+                got = p_.distance(q_)
+            except Exception as exc:
+                viol('distance_raised', dim=dim, a=p_, b=q_, exception=exc, expected=w_)
+            if not close(got, w_):
+                viol('distance_is_the_euclidean_distance', dim=dim, a=p_, b=q_, got=got, expected=w_)
+        if 0 < want < 1e-2 and la > 100:
+            facts['distance_of_close_points_far_from_the_origin'] += 1
         nrm = va.normalize()
         if la == 0:
             if tuple(nrm) != tuple(va):
